@@ -13,6 +13,9 @@ the set of events (calls, stores, returns) that can happen — compared with the
 import math
 
 
+BOXLIKE = ("alloc::boxed::Box", "core::ptr::unique::Unique", "core::ptr::non_null::NonNull")
+
+
 class _Top:
     def __repr__(self):
         return "TOP"
@@ -119,6 +122,7 @@ class Interp:
         self.fid = _FID[0]
         self.init_state = {}
         self.mstate = {}   # model state of the path being executed (oracles may read and update it)
+        self.dispatch = False    # resolve calls on trait objects by the abstract value's type (virtual dispatch)
         self.slice_len = None    # hook: length of a modelled slice value
         self.index_hook = None   # hook: indexing into a modelled collection
 
@@ -230,6 +234,7 @@ class Interp:
                 a = a[:body.argc]
         sub = Interp(body, self.oracle, a, self.max_visits, self.max_paths, self.facts, self.inline, self.depth + 1, self.max_depth)
         sub.variant_index = self.variant_index
+        sub.dispatch = self.dispatch
         sub.slice_len = self.slice_len
         sub.index_hook = self.index_hook
         sub.init_state = dict(self.mstate)
@@ -355,6 +360,8 @@ class Interp:
                     v = v.fields.get("*", v)
                 else:
                     pass  # references to plain values are transparent
+            elif e[0] == "f" and len(e) > 3 and e[3] in BOXLIKE and not (isinstance(v, Agg) and v.name == e[3]):
+                continue       # Box / Unique / NonNull are transparent: the boxed value stands for the box
             elif e[0] == "f":
                 if isinstance(v, Agg):
                     v = v.fields[e[1]] if e[1] < len(v.fields) else TOP
@@ -425,6 +432,8 @@ class Interp:
                 h[base.vid] = tuple(items)
                 self.mstate["heap"] = h
             return base
+        if isinstance(e, list) and e[0] == "f" and len(e) > 3 and e[3] in BOXLIKE and not (isinstance(base, Agg) and base.name == e[3]):
+            return self._store(env, base, proj[1:], val)
         if isinstance(e, list) and e[0] == "f":
             if isinstance(base, Agg):
                 nb = Agg(base.kind, base.name, base.variant, base.fields)
@@ -719,9 +728,34 @@ class Interp:
                     args = [self.operand(env, a) for a in t["args"]]
                     ckey = f.get("resolved", {}).get("key") or f.get("key") or f.get("kind")
                     outs = None
+                    if f.get("kind") == "fnptr" and "op" in f:
+                        f = dict(f)
+                        f["fnptr_value"] = self.operand(env, f["op"])   # the function value behind the pointer (fn item, closure or symbol)
+                        f.setdefault("key", "fnptr")
+                        f.setdefault("name", "fnptr")
                     if self.facts is not None:
                         fargs = [self.freeze(env, a) for a in args]
                         outs = self.combinator(f, fargs)
+                        if outs is None and f.get("kind") == "fnptr":
+                            fv = f["fnptr_value"]
+                            if not isinstance(fv, Sym) and fv is not TOP:
+                                outs = self.call_value(fv, fargs)
+                        if outs is None and self.dispatch and f.get("kind") == "def" and (f.get("gargs") or [""])[0].startswith("dyn ") and fargs:
+                            # virtual call on a trait object whose concrete (abstract) value is known: the impl's method,
+                            # or the trait's default body when the impl does not override it
+                            recv = fargs[0]
+                            hops = 0
+                            while isinstance(recv, (Ref, HRef)) and hops < 6:
+                                recv = self.read_ref(env, recv) if isinstance(recv, Ref) else self._project(env, recv, ["*"])
+                                hops += 1
+                            if isinstance(recv, Agg) and recv.kind == "adt" and recv.name:
+                                tr = f.get("key", "").rsplit("::", 1)[0]
+                                cf = self.facts.fn_opt("<%s as %s>::%s" % (recv.name, tr, f.get("name")))
+                                if cf is None and self.facts.fn_opt(f.get("key", "")) is not None and recv.name in self.facts.adts:
+                                    has_impl = any(i.get("self_adt") == recv.name and i.get("trait") == tr for i in self.facts.impls)
+                                    cf = self.facts.fn_opt(f.get("key", "")) if has_impl else None
+                                if cf is not None:
+                                    outs = self.call_body(cf, fargs)
                         if outs is None and f.get("kind") == "def" and self.inline and self.inline(ckey):
                             cf = self.facts.fn_opt(ckey)
                             if cf is not None:
@@ -859,7 +893,8 @@ def std_oracle(interp, env, f, args, t, bb, path):
             return NONE
         return TOP
     if key in ("core::ops::deref::Deref::deref", "core::ops::deref::DerefMut::deref_mut", "core::borrow::Borrow::borrow",
-               "core::convert::AsRef::as_ref", "core::convert::AsMut::as_mut"):
+               "core::convert::AsRef::as_ref", "core::convert::AsMut::as_mut", "alloc::vec::Vec::as_slice", "alloc::vec::Vec::as_mut_slice",
+               "core::borrow::BorrowMut::borrow_mut", "alloc::boxed::Box::as_ref", "alloc::boxed::Box::as_mut", "alloc::string::String::as_str"):
         # a guard / smart pointer held in a local: its target is what the local's value refers to
         if isinstance(a0, Ref):
             inner = interp.read_ref(env, a0)
